@@ -43,6 +43,18 @@ func init() {
 	props["C10"] = c10Main
 }
 
+// The protocol's own values (Tars wire protocol), not read from the tree: the monitor judges the implementation
+// against the protocol, the model reads the tree's values (Gen/Consts.v) and Props/C10.v pins them.
+const (
+	c10VerTars      int16 = 1
+	c10VerTup       int16 = 3
+	c10VerJSON      int16 = 5
+	c10Normal       int8  = 0
+	c10OneWay       int8  = 1
+	c10QueueTimeout int32 = -6
+	c10MsgDyed      int32 = 4
+)
+
 // ---------- data ----------
 type c10Cfg struct {
 	Pool int `json:"pool"` // maxroutine
@@ -97,24 +109,24 @@ type c10Scn struct {
 }
 
 func c10IsKnownVer(v int16) bool {
-	return v == basef.TARSVERSION || v == basef.TUPVERSION || v == basef.JSONVERSION
+	return v == c10VerTars || v == c10VerTup || v == c10VerJSON
 }
 
 // ---------- request encoding (reference encoders: the repository's codec, tup, encoding/json) ----------
 func c10ArgsPayload(q *c10Req) []byte {
 	if q.Func != "act" {
 		switch q.Ver {
-		case basef.TUPVERSION:
+		case c10VerTup:
 			b := codec.NewBuffer()
 			tup.NewUniAttribute().Encode(b)
 			return b.ToBytes()
-		case basef.JSONVERSION:
+		case c10VerJSON:
 			return []byte("{}")
 		}
 		return nil
 	}
 	switch q.Ver {
-	case basef.TUPVERSION:
+	case c10VerTup:
 		u := tup.NewUniAttribute()
 		put := func(name string, f func(b *codec.Buffer)) {
 			b := codec.NewBuffer()
@@ -129,7 +141,7 @@ func c10ArgsPayload(q *c10Req) []byte {
 		b := codec.NewBuffer()
 		u.Encode(b)
 		return b.ToBytes()
-	case basef.JSONVERSION:
+	case c10VerJSON:
 		j, _ := json.Marshal(map[string]interface{}{"token": q.Token, "kind": q.Kind, "code": q.Code, "msg": string(q.Msg), "sleepMs": q.SleepMs})
 		return j
 	}
@@ -174,14 +186,14 @@ type c10Run struct {
 func c10OkPayload(q *c10Req) []byte {
 	act := q.Func == "act"
 	switch q.Ver {
-	case basef.TARSVERSION:
+	case c10VerTars:
 		b := codec.NewBuffer()
 		if act {
 			b.WriteInt32(q.Code, 0)
 			b.WriteString("e:"+string(q.Msg), 6)
 		}
 		return b.ToBytes()
-	case basef.TUPVERSION:
+	case c10VerTup:
 		u := tup.NewUniAttribute()
 		if act {
 			b := codec.NewBuffer()
@@ -195,7 +207,7 @@ func c10OkPayload(q *c10Req) []byte {
 		b := codec.NewBuffer()
 		u.Encode(b)
 		return b.ToBytes()
-	case basef.JSONVERSION:
+	case c10VerJSON:
 		m := map[string]interface{}{}
 		if act {
 			m["tars_ret"] = q.Code
@@ -279,7 +291,7 @@ func c10DecodeReply(b []byte) c10Reply {
 		r.Garbage = "no version member"
 		return r
 	}
-	if ver == basef.TUPVERSION {
+	if ver == c10VerTup {
 		var p requestf.RequestPacket
 		if err := p.ReadFrom(codec.NewReader(b[4:])); err != nil {
 			r.Garbage = "TUP-versioned reply is not a RequestPacket"
@@ -320,7 +332,7 @@ func c10PayloadOk(q *c10Req, buf []byte) string {
 	var ret int32
 	var echo string
 	switch q.Ver {
-	case basef.TARSVERSION:
+	case c10VerTars:
 		rd := codec.NewReader(buf)
 		if err := rd.ReadInt32(&ret, 0, true); err != nil {
 			return "no return value in the payload"
@@ -328,7 +340,7 @@ func c10PayloadOk(q *c10Req, buf []byte) string {
 		if err := rd.ReadString(&echo, 6, true); err != nil {
 			return "no out parameter in the payload"
 		}
-	case basef.TUPVERSION:
+	case c10VerTup:
 		u := tup.NewUniAttribute()
 		if err := u.Decode(codec.NewReader(buf)); err != nil {
 			return "payload is not a TUP attribute map"
@@ -346,7 +358,7 @@ func c10PayloadOk(q *c10Req, buf []byte) string {
 		if err := codec.NewReader(b).ReadString(&echo, 0, true); err != nil {
 			return "echo unreadable"
 		}
-	case basef.JSONVERSION:
+	case c10VerJSON:
 		var m struct {
 			Ret  int32  `json:"tars_ret"`
 			Echo string `json:"echo"`
@@ -413,7 +425,7 @@ func c10Monitor(s *c10Scn) []c10Fail {
 		what := fmt.Sprintf("%s: request id=%d version=%d packet type=%d func=%q timeout=%d (%s)", where, q.ID, q.Ver, q.PType, q.Func, q.Timeout, clause)
 		rs := byID[q.ID]
 		want := 1
-		if q.PType == basef.TARSONEWAY {
+		if q.PType == c10OneWay {
 			want = 0
 		}
 		if len(rs) != want {
@@ -453,8 +465,8 @@ func c10Monitor(s *c10Scn) []c10Fail {
 						out = append(out, c10Fail{"ret/" + clause, fmt.Sprintf("%s: return code %d, expected success", what, r.Ret), timing})
 					}
 				case "queue-timeout":
-					if r.Ret != basef.TARSSERVERQUEUETIMEOUT {
-						out = append(out, c10Fail{"ret/queue-timeout", fmt.Sprintf("%s: queued for about %d ms, return code %d, expected the queue-timeout code %d", what, q.Queued, r.Ret, basef.TARSSERVERQUEUETIMEOUT), timing})
+					if r.Ret != c10QueueTimeout {
+						out = append(out, c10Fail{"ret/queue-timeout", fmt.Sprintf("%s: queued for about %d ms, return code %d, expected the queue-timeout code %d", what, q.Queued, r.Ret, c10QueueTimeout), timing})
 					}
 				case "handle-timeout", "disp-error":
 					if r.Ret == 0 {
@@ -573,19 +585,19 @@ func c10GenReq(rng *rand.Rand, cfg c10Cfg, id int32) c10Req {
 	q := c10Req{ID: id, Token: c10Token}
 	switch x := rng.Intn(20); {
 	case x < 7:
-		q.Ver = basef.TARSVERSION
+		q.Ver = c10VerTars
 	case x < 12:
-		q.Ver = basef.TUPVERSION
+		q.Ver = c10VerTup
 	case x < 17:
-		q.Ver = basef.JSONVERSION
+		q.Ver = c10VerJSON
 	default: // extended stream: versions the property does not speak about (identity is still checked)
 		q.Ver = int16(c10PickI32(rng, 0, 2, 4, 6, -1, 32767, -32768, 255, 256))
 	}
 	switch x := rng.Intn(10); {
 	case x < 5:
-		q.PType = basef.TARSNORMAL
+		q.PType = c10Normal
 	case x < 8:
-		q.PType = basef.TARSONEWAY
+		q.PType = c10OneWay
 	default:
 		q.PType = int8(c10PickI32(rng, 2, 3, -1, 127, -128, 16, 64))
 	}
@@ -603,7 +615,7 @@ func c10GenReq(rng *rand.Rand, cfg c10Cfg, id int32) c10Req {
 	q.Servant = []string{"VerifApp.C10Server.TcpObj", "VerifApp.C10Server.UdpObj", "", "Other.Obj", string(c10RandBytes(rng, false))}[rng.Intn(5)]
 	q.Timeout = c10PickI32(rng, 0, 0, -1, math.MinInt32, 60000, 100000, math.MaxInt32, 30000+rng.Int31n(1000000))
 	q.Ctx, q.Status = c10RandMap(rng), c10RandMap(rng)
-	if q.MType&basef.TARSMESSAGETYPEDYED != 0 && rng.Intn(2) == 0 {
+	if q.MType&c10MsgDyed != 0 && rng.Intn(2) == 0 {
 		if q.Status == nil {
 			q.Status = map[string]string{}
 		}
@@ -611,7 +623,7 @@ func c10GenReq(rng *rand.Rand, cfg c10Cfg, id int32) c10Req {
 	}
 	q.Kind = int32(rng.Intn(4))
 	q.Code = c10PickI32(rng, 0, 1, -1, 2, -6, 78, 255, 256, -32768, 65536, math.MaxInt32, math.MinInt32, rng.Int31(), -rng.Int31())
-	q.Msg = c10RandBytes(rng, q.Ver == basef.JSONVERSION)
+	q.Msg = c10RandBytes(rng, q.Ver == c10VerJSON)
 	return q
 }
 
@@ -643,6 +655,9 @@ func c10Durations(cfg c10Cfg, tier string) (overrun, blockMs int) {
 
 func c10GenPlain(rng *rand.Rand, cfg c10Cfg, udp bool, tier string) c10Scn {
 	n := 4 + rng.Intn(6)
+	if tier == "thorough" && rng.Intn(4) == 0 {
+		n = 10 + rng.Intn(20) // long pipelines
+	}
 	s := c10Scn{Cfg: cfg, UDP: udp, Kind: "plain", Conns: 1 + rng.Intn(3)}
 	if !udp {
 		for i, k := 0, 1+rng.Intn(4); i < k; i++ {
@@ -680,7 +695,7 @@ func c10GenQueue(rng *rand.Rand, cfg c10Cfg, udp bool, tier string) c10Scn {
 		if i < cfg.Pool {
 			q.Role, q.Func, q.SleepMs, q.Timeout = "blocker", "act", int32(block), c10PickI32(rng, 0, 60000)
 			if !c10IsKnownVer(q.Ver) {
-				q.Ver = basef.TARSVERSION
+				q.Ver = c10VerTars
 			}
 		} else {
 			q.Role, q.Queued = "queued", hold
@@ -706,7 +721,7 @@ func c10Gen(tier string, rng *rand.Rand) []c10Scn {
 	var out []c10Scn
 	nt, nu, nq := 12, 6, 4
 	if tier == "thorough" {
-		nt, nu, nq = 40, 16, 6
+		nt, nu, nq = 90, 36, 12
 	}
 	for _, cfg := range c10Configs(tier) {
 		for i := 0; i < nt; i++ {
@@ -854,9 +869,9 @@ func c10Class(s *c10Scn) string {
 			v = "v-other"
 		}
 		way := "two-way"
-		if q.PType == basef.TARSONEWAY {
+		if q.PType == c10OneWay {
 			way = "one-way"
-		} else if q.PType != basef.TARSNORMAL {
+		} else if q.PType != c10Normal {
 			way = "two-way(other type)"
 		}
 		c10Stats.clause[fmt.Sprintf("%s %s %s %s", c10Clause(s.Cfg, q), v, way, tr)]++
@@ -867,7 +882,7 @@ func c10Class(s *c10Scn) string {
 	seen := map[string]bool{}
 	for i := range s.Reqs {
 		q := &s.Reqs[i]
-		k := fmt.Sprintf("%s/v%d/ow=%v", c10Clause(s.Cfg, q), q.Ver, q.PType == basef.TARSONEWAY)
+		k := fmt.Sprintf("%s/v%d/ow=%v", c10Clause(s.Cfg, q), q.Ver, q.PType == c10OneWay)
 		if !seen[k] {
 			seen[k] = true
 			ks = append(ks, k)
